@@ -1,1 +1,107 @@
-From RxVerif Require Import Base.Prelude Ops.Machine Ops.Multi Ops.Timed.
+(* C16 -- rate-limiting operators follow their timing rules.
+
+   Machines: Ops/Timed.v (written from reactivex/operators/_debounce.py
+   (debounce_ and throttle_with_mapper_), _throttlefirst.py, _sample.py), tied
+   to the implementation by the K2 correspondence on delivered input sequences
+   (harness/props/C16.py).  Closed world, notation and conventions: see
+   Props/C15.v (Ops/TimedSim.v: timers fire exactly at their due time; at equal
+   instants the source's notification goes first). *)
+From RxVerif Require Import Base.Prelude Ops.Machine Ops.Multi Ops.MultiFacts Ops.Timed Ops.TimedSim
+  Ops.TimedFacts Ops.TimedWindowFacts Ops.TimedSubFacts Ops.TimedMapperFacts.
+
+(* debounce(d) on a conforming timeline, due time dd = max(0, d): an element is
+   emitted at t + dd iff the NEXT notification arrives strictly later than t + dd
+   (a notification exactly at t + dd comes first: a newer element replaces it, an
+   error drops it); the last element is flushed by the completion if that comes
+   first.  No hypothesis on the instants. *)
+Theorem C16_debounce_spec : forall A d t0 (tl : list (Z * A)) tm,
+  timed_emits t0 (simulate (x_debounce d) t0 (ext_of (tevents tl tm))) = deb_out (clamp d) tl tm.
+Proof. exact @debounce_spec. Qed.
+Print Assumptions C16_debounce_spec.
+
+(* the same for ANY notification sequence of the source: the walk with the pending element *)
+Theorem C16_debounce_walk : forall A d t0 (es : list (Z * ev A)),
+  timed_emits t0 (simulate (x_debounce d) t0 (ext_of es)) = deb_spec (clamp d) None es.
+Proof. exact @debounce_sim_spec. Qed.
+Print Assumptions C16_debounce_walk.
+
+(* throttle_first(w): exactly the greedy subsequence -- an element passes iff it
+   is the first or at least w after the last one that PASSED; terminals pass *)
+Theorem C16_throttle_first_spec : forall A t0 w (es : list (Z * ev A)),
+  timed_emits t0 (simulate (x_throttle_first w) t0 (ext_of es)) = tf_spec w None es.
+Proof. exact @throttle_first_spec. Qed.
+Print Assumptions C16_throttle_first_spec.
+
+Theorem C16_throttle_first_gaps : forall A w (es : list (Z * ev A)) last,
+  gaps_ok w last (tf_spec w last es).
+Proof. exact @tf_spec_gaps. Qed.
+Print Assumptions C16_throttle_first_gaps.
+
+(* sample(sampler observable): for EVERY interleaving of the two ports (0 =
+   source, 1 = sampler; non-conforming ones included) each sampler tick (its
+   on_next and its on_completed) emits the latest element not sampled yet, and
+   completes the sequence once the source has completed *)
+Theorem C16_sample_observable_spec : forall A t0 (ins : list (Z * nat * ev A)),
+  timed_emits t0 (simulate x_sample_observable t0 (ext2_of ins)) = smp_spec true true false None ins.
+Proof. exact @sample_observable_spec. Qed.
+Print Assumptions C16_sample_observable_spec.
+
+(* sample(period): the sampler fires at t0 + p, t0 + 2p, ... (p = max(0, period));
+   a notification of the source up to and AT a firing instant is seen by that
+   firing.  The periodic timer never stops by itself: the statement holds for
+   every horizon [fuel] (number of inputs delivered). *)
+Theorem C16_sample_time_spec : forall A p t0 fuel (es : list (Z * ev A)),
+  sim_emits (snd (simulate_fuel (x_sample_time p) fuel t0 (ext_of es)))
+  = smpt_spec fuel (clamp p) (t0 + clamp p) true false None es.
+Proof. exact @sample_time_spec. Qed.
+Print Assumptions C16_sample_time_spec.
+
+(* throttle_with_mapper, step level (the instants at which the throttle
+   observables notify are inputs).  PARTIAL: no closed form over absolute time;
+   whole-run behaviour is covered by the K2 correspondence. *)
+Theorem C16_throttle_with_mapper_step_partial : forall A (mapper : A -> nat -> res unit) (s : thm_st) now,
+  let m := x_throttle_with_mapper mapper in
+  (forall k e cid, k <> 0%nat -> lookup k (tm_subs s) = Some cid -> not_err e ->
+     emitted_cmds (snd (fst (x_step m s now (ISrc k e))))
+     = (if tm_has s && Nat.eqb (tm_id s) cid then opt_list (tm_value s) else [])
+     /\ tm_has (fst (fst (x_step m s now (ISrc k e)))) = false
+     /\ snd (x_step m s now (ISrc k e)) = Cont)
+  /\ (forall x u, mapper x (tm_cnt s) = Ok u ->
+        x_step m s now (ISrc 0%nat (Next x))
+        = (ThmSt true (Some x) (S (tm_id s)) ((S (tm_cnt s), S (tm_id s)) :: tm_subs s) (S (tm_cnt s)),
+           unsub_prev (tm_cnt s) ++ [CSub (S (tm_cnt s))], Cont))
+  /\ (emitted_cmds (snd (fst (x_step m s now (ISrc 0%nat Done)))) = (if tm_has s then opt_list (tm_value s) else [])
+      /\ snd (x_step m s now (ISrc 0%nat Done)) = Complete)
+  /\ (forall k c, snd (x_step m s now (ISrc k (Err c))) = Fail c
+                  /\ emitted_cmds (snd (fst (x_step m s now (ISrc k (Err c))))) = [])
+  /\ (forall x c, mapper x (tm_cnt s) = Raise c -> snd (x_step m s now (ISrc 0%nat (Next x))) = Fail c).
+Proof. exact @throttle_with_mapper_step_partial. Qed.
+Print Assumptions C16_throttle_with_mapper_step_partial.
+
+(* ---- non-vacuity / worked instances ----------------------------------------- *)
+(* gap exactly the due time: the newer element wins; completion flushes the pending one *)
+Example C16_ex_debounce :
+  timed_emits 0 (simulate (x_debounce 10) 0 (ext_of (tevents [(0, 1); (10, 2); (25, 0); (30, 3)] (TTDone 32))))
+  = [(20, Next 2); (32, Next 3); (32, Done)].
+Proof. vm_compute. reflexivity. Qed.
+
+Example C16_ex_debounce_error_drops :
+  timed_emits 0 (simulate (x_debounce 10) 0 (ext_of (tevents [(0, 1)] (TTErr 10 7)))) = [(10, Err 7)].
+Proof. vm_compute. reflexivity. Qed.
+
+Example C16_ex_throttle_first :
+  timed_emits 0 (simulate (x_throttle_first 10) 0 (ext_of (tevents [(0, 1); (5, 2); (10, 0); (19, 3); (20, 4)] (TTDone 20))))
+  = [(0, Next 1); (10, Next 0); (20, Next 4); (20, Done)].
+Proof. vm_compute. reflexivity. Qed.
+
+Example C16_ex_sample_time :
+  sim_emits (snd (simulate_fuel (x_sample_time 10) 12 0 (ext_of (tevents [(3, 1); (10, 2); (25, 0)] (TTDone 31)))))
+  = [(10, Next 2); (30, Next 0); (40, Done)].
+Proof. vm_compute. reflexivity. Qed.
+
+Example C16_ex_sample_observable :
+  timed_emits 0 (simulate x_sample_observable 0
+                   (ext2_of [(1, 0%nat, Next 5); (2, 0%nat, Next 0); (3, 1%nat, Next 9); (4, 1%nat, Next 9);
+                             (5, 0%nat, Next 7); (6, 0%nat, Done); (7, 1%nat, Done)]))
+  = [(3, Next 0); (7, Next 7); (7, Done)].
+Proof. vm_compute. reflexivity. Qed.
